@@ -139,7 +139,13 @@ func (c04) Run(e *Env) {
 	names := []string{"c04.a", "c04.b", "c04.t"}
 	tagsets := [][]string{nil, {"env:prod"}, {"gsd_histogram:10_20_50"}, {"gsd_histogram:x"}, {"gsd_histogram:"}, {"gsd_histogram:5__9", "az:a"}, {"gsd_histogram:-1_0_+Inf"}, {"gsd_histogram:1_2_3_4_5_6"}, {"gsd_histogram:NaN_10"}, {"gsd_histogram:10_NaN_5"}, {"gsd_histogram:-Inf_Inf_7"}, {"gsd_histogram:30_10_20"},
 		// tags of unusual shape, all accepted by the lexer
-		{"_:canary", "env:prod"}, {"__:x"}, {":novalue-key"}, {"nokey:"}, {":"}, {"_"}, {"a:b:c", "host:h", "s:x"}, {"=", "a=b:c d", "q:\"\\"}}
+		{"_:canary", "env:prod"}, {"__:x"}, {":novalue-key"}, {"nokey:"}, {":"}, {"_"}, {"a:b:c", "host:h", "s:x"}, {"=", "a=b:c d", "q:\"\\"},
+		// more tags than some vendors take dimensions (cloudwatch: 10), with and without the bucket tag a histogram timer gains
+		{"t0:0", "t1:1", "t2:2", "t3:3", "t4:4", "t5:5", "t6:6", "t7:7", "t8:8", "t9:9"},
+		{"t0:0", "t1:1", "t2:2", "t3:3", "t4:4", "t5:5", "t6:6", "t7:7", "t8:8", "t9:9", "ta:a"},
+		{"t0:0", "t1:1", "t2:2", "t3:3", "t4:4", "t5:5", "t6:6", "t7:7", "t8:8", "t9:9", "ta:a", "tb:b", "tc:c"},
+		{"gsd_histogram:10_20", "t1:1", "t2:2", "t3:3", "t4:4", "t5:5", "t6:6", "t7:7", "t8:8", "t9:9"},
+		{"gsd_histogram:10_20", "t1:1", "t2:2", "t3:3", "t4:4", "t5:5", "t6:6", "t7:7", "t8:8"}}
 	specials := []float64{0, -0.0, 1, -1, 1e300, -1e300, 5e-324, math.Inf(1), math.Inf(-1), math.NaN(), math.MaxFloat64, 4294967296, 9.223372036854776e18}
 	persistedTimer, persistedHist := false, false
 	nFlushes := 0
